@@ -50,6 +50,7 @@ type Obligation struct {
 	TimeS   float64
 	Model   map[string]string
 	modelExtra []string
+	smallModel bool
 	Output  string
 	SMTSize int
 }
@@ -533,6 +534,14 @@ func (o *Obligation) SMT(withModel bool, forCVC5 bool) string {
 	} else {
 		fmt.Fprintf(&sb, "(assert (not %s))\n", goal)
 	}
+	if withModel && o.smallModel {
+		// a counterexample that can be built and replayed: short lists
+		for _, w := range o.Watch {
+			if strings.HasSuffix(w.Name, ".len") && w.T.Sort == SInt {
+				fmt.Fprintf(&sb, "(assert (<= %s %d))\n", w.T, rpMaxList)
+			}
+		}
+	}
 	sb.WriteString("(check-sat)\n")
 	if withModel && len(o.Watch) > 0 {
 		sb.WriteString("(get-value (")
@@ -749,6 +758,28 @@ func (o *Obligation) Discharge(timeoutS int, thorough bool) {
 }
 
 func (o *Obligation) fetchModel(base string) {
+	if o.Kind == "known-finding-canary" {
+		return // expected to fail: nobody reads its model
+	}
+	// first look for a model with short lists (replayable), if the watches include list lengths; any model otherwise
+	hasLen := false
+	for _, w := range o.Watch {
+		if strings.HasSuffix(w.Name, ".len") {
+			hasLen = true
+			break
+		}
+	}
+	if hasLen {
+		o.smallModel = true
+		o.fetchModelOnce(base)
+		o.smallModel = false
+	}
+	if o.Model == nil {
+		o.fetchModelOnce(base)
+	}
+}
+
+func (o *Obligation) fetchModelOnce(base string) {
 	txt := o.SMT(true, false)
 	file := base + ".model.smt2"
 	if err := os.WriteFile(file, []byte(txt), 0o644); err != nil {
